@@ -36,8 +36,8 @@ PROPS = {
     ),
     "C20": dict(
         engine="TestC20",
-        lean_modules=["S2S.Props.C20"],
-        required_theorems=["C20_open_never_wedges", "C20_report_total", "C20_others_unchanged", "C20_refuted_before_fix"],
+        lean_modules=["S2S.Props.C20", "S2S.Props.C20C"],
+        required_theorems=["C20_open_never_wedges", "C20_report_total", "C20_others_unchanged", "C20_refuted_before_fix", "C20C_never_blocks", "C20C_counters_order_independent", "C20C_balanced_ends_empty", "C20C_per_stream_projection"],
         rule="stream opens through the real adminServiceProxyServer + real ReplicationStreamObserver: boundary ids x four metadata keys x three "
              "stream modes, each followed by a well-formed open that must be served; random int32/int64/garbage strings. Non-trivial = id outside "
              "[1,1024] or malformed; distinct by (mode,metadata).",
